@@ -110,7 +110,17 @@ def run(ctx):
             # the lines produced before the abort are still compared below
         if not ctx.driver_ok() or not ctx.run_driver("C15", cases, model):
             ctx.tie_ok = False; ctx.broken.append({"kind": "driver failed"}); continue
-        if os.path.exists(stats): dist = json.load(open(stats))
+        if os.path.exists(stats):
+            dist = json.load(open(stats))
+            co = dist.get("concurrent_outcome")
+            if co is None:
+                ctx.tie_ok = False; ctx.broken.append({"kind": "the concurrent phase of the permute harness did not run", "mode": mode})
+            elif co != 0:
+                ctx.report("concurrent-permute-differs" if co > 0 else "concurrent-permute-crash",
+                           {"mode": mode, "threads": dist.get("concurrent_threads"), "calls": dist.get("concurrent_permute_calls"), "outcome": co,
+                            "replay_cmd": "VERIF_SEED=%d python3 bin/check.py C15 --tier %s" % (ctx.seed, ctx.tier)},
+                           ("%d table states produced by permuteDimensions while other threads were permuting OTHER tables differ from the states the same calls produce alone" % co) if co > 0
+                           else "the process permuting %s different tables from as many threads at the same time died (signal %d); each of these calls succeeds alone" % (dist.get("concurrent_threads"), -co))
         prev_before = None; prev_ok = False
         nlines = 0
         with open(cases) as fc, open(impl) as fi, open(model) as fm:
